@@ -425,7 +425,8 @@ def shard(i, n, tier, seed, rec, hb):
         for block in BLOCKS:
             if tier == "quick" and block > 4096:
                 continue
-            for ch in ("\xe9", "\u20ac", "\U0001F600"):
+            # (U+FFFD is a character like any other when it is IN the label)
+            for ch in ("\xe9", "\u20ac", "\U0001F600", "\ufffd"):
                 for shift in range(len(ch.encode("utf-8"))):
                     for with_data in (True, False):
                         k += 1
